@@ -51,7 +51,7 @@ impl From<pest::error::Error<Rule>> for Error {
 }
 
 impl Error {
-    fn custom(message: impl Into<String>, span: pest::Span<'_>) -> Self {
+    pub(crate) fn custom(message: impl Into<String>, span: pest::Span<'_>) -> Self {
         pest::error::Error::<Rule>::new_from_span(
             pest::error::ErrorVariant::CustomError {
                 message: message.into(),
